@@ -5,6 +5,7 @@ mod cv;
 mod bs;
 mod mq;
 mod pl;
+mod ra;
 mod tp;
 mod rp;
 mod util;
@@ -70,6 +71,7 @@ fn main() {
             "cv" => cv::run_case(&mut servers, &f),
             "mq" => mq::run_case(&f),
             "pl" => pl::run_case(&mut servers, &f),
+            "ra" => ra::run_case(&mut servers, &f),
             "tp" => tp::run_case(&f),
             "bs" => bs::run_case(&f),
             other => format!("UNKNOWN-EXECUTOR {}", other),
